@@ -272,7 +272,11 @@ func (e *Exec) unop(st *State, x *ssa.UnOp) Value {
 	switch x.Op {
 	case token.MUL: // load
 		p := e.ptr(st, x.X, "load")
-		return e.load(st, p)
+		v := e.load(st, p)
+		if len(e.ob.guards) > 0 {
+			e.locksetAccess(st, st.top(), x.X, p, v, false)
+		}
+		return v
 	case token.NOT:
 		return e.c.Not(e.term(st, x.X))
 	case token.SUB:
@@ -461,6 +465,12 @@ func (e *Exec) invoke(st *State, f *Frame, fv FuncV, args []Value, retTo ssa.Val
 	}
 	if fv.fn != nil {
 		if e.tryMergeCall(st, f, fv, args, retTo) {
+			return
+		}
+		if e.ob.mergeFuncs[name] && st.tolerant == 0 && e.pure == 0 && e.inMerged == 0 {
+			e.inMerged++
+			defer func() { e.inMerged-- }()
+			e.mergedCall(st, f, fv, args, retTo)
 			return
 		}
 	}
